@@ -12,7 +12,7 @@ use std::borrow::Cow;
 pub const SPEC: PropSpec = PropSpec {
     id: "C10",
     level: "exploration",
-    rule: "Cases = strings. (1) Exhaustive: every string up to length N over {< > & ' \" # x ; 0 1 9 a é} and every sequence of up to k atoms over {& ; # x X amp lt gt apos quot 0 1 41 D800 110000 - + a space é < >}: for each, unescape(escape_level(s)) == s for the three levels, the escaped form contains none of the characters that level removes (outside the five entity references), unescape(s) for '&'-free s is Cow::Borrowed of the same memory, and unescape(s) / unescape_with(s, custom resolver) agree with a 40-line reference unescaper on Ok/Err and on the Ok value. (2) Exhaustive: every code point 0..=0x110020 as a decimal and hexadecimal character reference, with 1 and 7 leading zeros, lower/upper/mixed-case hex digits, plus the malformed spellings (&#X..;, signs, empty digits, trailing garbage, missing ';', embedded in text): a valid non-zero scalar value must give exactly that char, everything else Err. (3) Random Unicode strings of length <= 200 from all planes for the round trips. Non-trivial = the string contains at least one of < > & ' \" or is a character reference.",
+    rule: "Cases = strings. (1) Exhaustive: every string up to length N over {< > & ' \" # x ; 0 1 9 a é} and every sequence of up to k atoms over {& ; # x X amp lt gt apos quot 0 1 41 D800 110000 - + a space é < > LT AMP Quot}: for each, unescape(escape_level(s)) == s for the three levels, the escaped form contains none of the characters that level removes (outside the five entity references), unescape(s) for '&'-free s is Cow::Borrowed of the same memory, and unescape(s) / unescape_with(s, custom resolver) agree with a 40-line reference unescaper on Ok/Err and on the Ok value. (2) Exhaustive: every code point 0..=0x110020 as a decimal and hexadecimal character reference, with 1 and 7 leading zeros, lower/upper/mixed-case hex digits, plus the malformed spellings (&#X..;, signs -- also behind leading zeros --, empty digits, trailing garbage, missing ';', embedded in text): a valid non-zero scalar value must give exactly that char, everything else Err. (3) Random Unicode strings of length <= 200 from all planes for the round trips. Non-trivial = the string contains at least one of < > & ' \" or is a character reference.",
     assumptions: &["the reference unescaper (refun in this file): '&' ... next ';' with no '&' in between; '#' decimal / '#x' hexadecimal ASCII digits only, no sign, fits u32, non-zero, valid scalar; the five XML entity names", "the harness is built without the escape-html feature, so 'unknown entity name' means the XML set"],
     required: &["roundtrips", "borrowed_results", "refs.valid_ok", "refs.surrogate_rejected", "refs.zero_rejected", "refs.out_of_range_rejected", "refs.malformed_rejected", "planes_seen_all17", "refun.ok", "refun.err", "custom_resolver_runs"],
     run,
@@ -257,6 +257,11 @@ pub fn check_codepoint(cp: u32, loc: &mut Local) -> Result<(), String> {
         format!("&#{}", cp),
         format!("&#x{:x}", cp),
         format!("&#{}&#{};", cp, cp),
+        // a sign behind leading zeros is still a sign
+        format!("&#0+{};", cp),
+        format!("&#00-{};", cp),
+        format!("&#x0+{:x};", cp),
+        format!("&#x000-{:x};", cp),
     ] {
         loc.malformed += 1;
         expect_char(&sp, None, loc)?;
@@ -274,7 +279,7 @@ pub fn check_codepoint(cp: u32, loc: &mut Local) -> Result<(), String> {
 
 const ALPHA: &[&str] = &["<", ">", "&", "'", "\"", "#", "x", ";", "0", "1", "9", "a", "é"];
 const ATOMS: &[&str] = &[
-    "&", ";", "#", "x", "X", "amp", "lt", "gt", "apos", "quot", "0", "1", "41", "D800", "110000", "-", "+", "a", " ", "é", "<", ">",
+    "&", ";", "#", "x", "X", "amp", "lt", "gt", "apos", "quot", "0", "1", "41", "D800", "110000", "-", "+", "a", " ", "é", "<", ">", "LT", "AMP", "Quot",
 ];
 
 fn nontrivial(s: &str) -> bool {
@@ -356,7 +361,7 @@ fn run(ctx: &mut Ctx) {
         cp += ctx.nshards;
     }
     if !small {
-        ctx.exhaustive("every code point 0..=0x110020 in 8 valid and 12 malformed spellings of a character reference");
+        ctx.exhaustive("every code point 0..=0x110020 in 8 valid and 16 malformed spellings of a character reference");
     }
     for s in ["&#4294967295;", "&#4294967296;", "&#x100000000;", "&#xFFFFFFFF;", "&#99999999999999999999;", "&#;", "&#x;", "&;", "&", "&&", "&amp", ";&amp;;", "&#x110000;", "&#1114112;", "&#xD800;", "&#xDFFF;", "&#0;", "&#x0;", "&#00;"] {
         if !run_string(ctx, &mut loc, s) {
